@@ -13,6 +13,8 @@ SHARDS = {"quick": 8, "thorough": 16}
 ANCHORS = ["reconciliation.py:_order_curie_remapping", "reconciliation.py:remap_curie_prefixes"]
 DECIDING = ["remap_curie_prefixes"]
 RULE = (
+    "bounded world: every remapping with at most 2 (quick) / 3 (thorough) pairs over seven names (canonical prefixes, "
+    "synonyms, unknown strings) on two fixed converters (coverage.small_world_exhaustive). Random part: "
     "case = strict converter of 1-4 records with 0-2 CURIE-prefix synonyms each over the alphabet a..g (plus case "
     "variants), and a remapping of 1-4 pairs over known canonical prefixes, known synonyms and unknown strings: plain "
     "renames, chains and swaps (keys that are also values), self-maps, partially applicable chains, values that are "
@@ -30,10 +32,61 @@ ASSUMPTIONS = ["default delimiter (CURIE remapping is delimiter-free)", "two pai
 ALPHA = list("abcdefg") + ["A", "B"]
 
 
+# ---- bounded-exhaustive small world: every remapping with <= 3 pairs over 7 names on two fixed converters ------------
+import itertools
+
+SMALL_NAMES = ["a", "s", "t", "b", "c", "y", "z"]
+SMALL_CONVERTERS = [
+    [spec.Rec("a", "http://u0/", ("s", "t"), ("http://s0/",), None), spec.Rec("b", "http://u1/", (), (), None)],
+    [spec.Rec("a", "http://u0/", ("s",), (), None), spec.Rec("b", "http://u1/", ("t",), (), None), spec.Rec("c", "http://u2/", (), (), None)],
+]
+
+
+def small_remappings(kmax):
+    out = []
+    for k in range(1, kmax + 1):
+        for keys in itertools.combinations(SMALL_NAMES, k):
+            for vals in itertools.product(SMALL_NAMES, repeat=k):
+                out.append(dict(zip(keys, vals)))
+    return out
+
+
+SMALL_CHUNK = 400
+_SMALL = {}
+
+
+def _world(tier):
+    if tier not in _SMALL:
+        _SMALL[tier] = [(ci, m) for ci in range(len(SMALL_CONVERTERS)) for m in small_remappings(3 if tier == "thorough" else 2)]
+    return _SMALL[tier]
+
+
+def small_world_case(ctx, g):
+    import curies
+
+    api, S = ctx.api, probe.S
+    for ci, m in _world(ctx.tier)[g * SMALL_CHUNK:(g + 1) * SMALL_CHUNK]:
+        c = api.Converter([gen.mk_record(api, r) for r in SMALL_CONVERTERS[ci]])
+        call(curies.remap_curie_prefixes, c, dict(m))
+        S.counters["wl:small-world-remappings"] += 1
+    probe.note_key(f"small-world:chunk{g}", True)
+
+
+def EXHAUSTIVE(tier, counters):
+    n = counters.get("wl:small-world-remappings", 0)
+    total = len(_world(tier))
+    return {
+        "small_world_exhaustive": n == total,
+        "explanation": f"{n} of {total} remappings enumerated: every remapping with at most {3 if tier == 'thorough' else 2} pairs over the names {SMALL_NAMES} on {len(SMALL_CONVERTERS)} fixed converters; random cases beyond that are sampling",
+    }
+
+
 def run_case(ctx, g, rng):
     import curies
 
     api, S = ctx.api, probe.S
+    if g * SMALL_CHUNK < len(_world(ctx.tier)):
+        small_world_case(ctx, g)
     n = rng.randint(1, 4)
     names = rng.sample(ALPHA, k=len(ALPHA))
     recs = []
